@@ -31,8 +31,15 @@ fn inv(beta: f64) -> f64 {
 pub fn check_latitude(run: &mut Run, phi: f64, class: &str) -> Option<f64> {
     run.evaluations += 1;
     let case = || json!({"lat_rad": fj(phi), "class": class});
-    let r = guard(|| (fwd(phi), inv(fwd(phi)), fwd(-phi)));
-    let (beta, back, neg) = match r {
+    // both maps are evaluated at the bitwise-same argument right after each other, and both round trips are taken
+    let r = guard(|| {
+        let beta = fwd(phi);
+        let inv_same_arg = inv(phi);
+        let back = inv(beta);
+        let there = fwd(inv_same_arg);
+        (beta, back, fwd(-phi), inv_same_arg, there)
+    });
+    let (beta, back, neg, inv_same_arg, there) = match r {
         Ok(t) => t,
         Err(e) => {
             run.violation("C19.ok", case(), format!("authalic conversion {e}"));
@@ -41,6 +48,13 @@ pub fn check_latitude(run: &mut Run, phi: f64, class: &str) -> Option<f64> {
     };
     if run.margin("authalic_round_trip_rad", (back - phi).abs(), 1e-12, case) {
         run.violation("C19.round_trip", case(), format!("inverse(forward({phi})) = {back}: off by {:.3e} rad", back - phi));
+    }
+    if run.margin("authalic_reverse_round_trip_rad", (there - phi).abs(), 1e-12, case) {
+        run.violation("C19.round_trip", case(), format!("forward(inverse({phi})) = {there}: off by {:.3e} rad (inverse gave {inv_same_arg})", there - phi));
+    }
+    // the two maps move a latitude in opposite directions by (almost) the same small amount
+    if run.margin("authalic_forward_plus_inverse_minus_2x_rad", (beta + inv_same_arg - 2.0 * phi).abs(), 5e-5, case) {
+        run.violation("C19.round_trip", case(), format!("forward({phi}) = {beta} and inverse({phi}) = {inv_same_arg} are not mirror images about the argument"));
     }
     if run.margin("authalic_odd_symmetry_rad", (neg + beta).abs(), 1e-13, case) {
         run.violation("C19.odd", case(), format!("forward(-x) = {neg} but forward(x) = {beta}"));
